@@ -51,6 +51,18 @@ def fresh(M, ref, n, bases, shift=0, origin=100, history=None):
     if shift:
         for k in data:
             data[k] = data[k] + 0.0
+    if history in ('shared-operand-attr', 'shared-operand-item'):
+        # every series was set from one and the same array object after construction (a common way of giving several
+        # variables the same starting values): the model must keep its own copy per variable
+        shared = np.array(data[ref.names[0]], dtype=float)
+        data = {k: shared.copy() for k in data}
+        m = M(range(origin, origin + n))
+        for k in data:
+            if history == 'shared-operand-attr' and k.isidentifier() and not k.startswith('_'):
+                setattr(m, k, shared)
+            else:
+                m[k] = shared
+        return m, data
     if history in ('reindexed-shorter', 'reindexed-longer'):
         # the object has a past: it was solved on a span of another length and then reindexed to this one; afterwards
         # every series (and the solution record) is put back to the fresh state by whole-series assignment
@@ -357,7 +369,7 @@ def strategy(**kw):
             'prog': G.programs(**args),
             'extra': st.integers(0, 4), 'variant': st.integers(0, 4),
             'victim': st.integers(0, 2), 'origin': st.sampled_from([100, 0, 0, -1, -2]), 'rep': tapes(),
-            'history': st.sampled_from([None, None, None, 'reindexed-shorter', 'reindexed-longer']),
+            'history': st.sampled_from([None, None, None, 'reindexed-shorter', 'reindexed-longer', 'shared-operand-attr', 'shared-operand-item']),
             'bases': st.lists(st.lists(st.sampled_from([1.0, 2.0, 0.5, 4.0, 3.0, 0.25, 1.5]), min_size=2, max_size=4), min_size=1, max_size=3),
         })
     return make
@@ -369,6 +381,8 @@ def gen_enumerated(max_nodes):
             yield {'prog': prog, 'extra': i % 3}
             if i % 7 == 3:
                 yield {'prog': prog, 'extra': i % 3, 'history': ('reindexed-shorter', 'reindexed-longer')[(i // 7) % 2]}
+            if i % 7 == 5:
+                yield {'prog': prog, 'extra': i % 3, 'history': ('shared-operand-attr', 'shared-operand-item')[(i // 7) % 2]}
     return gen
 
 
